@@ -203,7 +203,7 @@ Notation addr := nat (only parsing).
 Record exec := {
   ex_ic : addr;                       (* the initial_cache object shared by all resolver contexts of the execution *)
   ex_cache : nat -> option addr;      (* resolver context number -> its `cache` (copy made when traversal starts) *)
-  ex_ret : option nat                 (* `returned`: Some m = value computed by the body from message m's arguments *)
+  ex_ret : option nat                 (* `returned` / `found_exception`: Some m = produced by the body run for message m *)
 }.
 Record state := { heap : list dict; execs : nat -> option exec }.
 
@@ -212,6 +212,7 @@ Inductive action :=
 | ATraverse (i c : nat)   (* resolver context c of execution i starts traverse_deps: cache = copy(initial_cache) *)
 | ARead (i c : nat)       (* kwargs[param] = cache[Context] in context c (for a dependency or for the task function) *)
 | ABody (i : nat)         (* target( *message.args, **kwargs ): which message's arguments does the body see *)
+| AResult (i : nat)       (* returned = await target_future / found_exception = exc : the body's value or exception *)
 | ASave (i : nat).        (* set_result(taskiq_msg.task_id, result) *)
 Inductive value :=
 | VUnit
@@ -266,11 +267,16 @@ Definition step (bg : begin_t) (st : state) (a : action) : option (state * value
   | ABody i =>
       match execs st i with
       | None => None
+      | Some e => Some (st, VMsg i)     (* `message` is a local of run_task: the body gets message i's arguments *)
+      end
+  | AResult i =>
+      match execs st i with
+      | None => None
       | Some e =>
-          (* `message` is a local of run_task: the body is applied to the arguments of message i *)
+          (* `returned` / `found_exception` are locals of run_task *)
           Some ({| heap := heap st;
                    execs := fupd (execs st) i
-                              {| ex_ic := ex_ic e; ex_cache := ex_cache e; ex_ret := Some i |} |}, VMsg i)
+                              {| ex_ic := ex_ic e; ex_cache := ex_cache e; ex_ret := Some i |} |}, VUnit)
       end
   | ASave i =>
       match execs st i with
